@@ -327,8 +327,10 @@ func (b *AESGCMBarrier) persistKeyringInternal(ctx context.Context, keyring *Key
 		return fmt.Errorf("failed to persist root key: %w", err)
 	}
 
-	// Delete the legacy value if it exists.
-	if err := b.backend.Delete(ctx, LegacyRootKeyPath); err != nil {
+	// Delete the legacy value if it exists. Like every record of the barrier
+	// itself it lives below this barrier's own prefix: a namespace's barrier
+	// must not delete the root namespace's record.
+	if err := b.backend.Delete(ctx, b.metaPrefix+LegacyRootKeyPath); err != nil {
 		return fmt.Errorf("failed to remove legacy root key path: %w", err)
 	}
 
